@@ -2,13 +2,20 @@
 from facts import walk, callee_of, call_args, loc
 import hirq, anchors, absx, unesc
 
-EXPLANATION = ("The escape functions are per-byte transducers; their loop bodies are abstractly evaluated on literals for every byte value "
-               "(0..255) crossed with the finitely many contexts the body distinguishes (output already started?; for dn_escape: first "
-               "position?, last position?), so the decision - hex-escape or copy - and the three emitted bytes `\\`, hex(c>>4), hex(c&15) "
-               "are decided exhaustively: E1 ldap_escape escapes exactly {\\ * ( ) NUL} = complement of the filter lexer's value class "
+EXPLANATION = ("The escape functions are transducers over the items of their input; their loop bodies are abstractly evaluated on literals for every item "
+               "- each of the 256 octet values when the loop walks the input by octets (bytes(), as_bytes().iter()); each of the 128 ASCII characters, and the "
+               "non-ASCII characters as three symbolic classes by encoded length (of which only 'not ASCII', the length and the code-point range are known), when it "
+               "walks by characters (chars(), char_indices(): whole characters, each a run of 1-4 octets of the input, with its byte offset) - crossed with the "
+               "finitely many contexts the body distinguishes (output already started?; for dn_escape: the only, the first, a middle, the last item, with index and "
+               "input length as literals).  What is judged is *the octets that reach the output*, whatever container collects them: a Vec<u8> and a String are both "
+               "an octet buffer with reference semantics - Vec::push(b) appends b, String::push(ch) appends the UTF-8 encoding of ch (one octet for ch < U+0080, "
+               "for `b as char` / char::from(b) with b >= 0x80 the two octets c2/c3 .., not b), push_str / extend / extend_from_slice append the octets of their argument, "
+               "String::from_utf8 keeps them.  Per item the output must grow by the escape sequence `\\`, hex(c>>4), hex(c&15) (a lazy output first becoming input[..i]) or by "
+               "the very octets of the input the item stands for (E3.copied-octets-unchanged: an unescaped octet >= 0x80 must not be re-encoded; a non-ASCII character is "
+               "copied whole, never escaped): E1 ldap_escape escapes exactly {\\ * ( ) NUL} = complement of the filter lexer's value class "
                "(extracted from filter.rs) plus the unescaper's trigger byte; E2 dn_escape always escapes a superset of RFC 4514's specials "
                "within ASCII punctuation, space and # only in first position, space only in last; E3 emission order and the single copy of "
-               "the unescaped prefix at the first escape - or, when a first-match search over the whole input decides where the loop starts, once before the loop as input[..start], the search's predicate (evaluated like the loop body) holding wherever the loop escapes; what the loop visits is read from the term of its iterator (enumerate / zip(n..) / split_at / slicing / skip), not from its spelling; E4 the input itself is returned only when nothing was escaped (lazy output still unset, or a contains / position / any / all over the whole input that cannot miss a byte the loop escapes); E5 ldap_unescape is decided as a transducer: "
+               "the unescaped prefix at the first escape - or, when a first-match search over the whole input decides where the loop starts, once before the loop as input[..start], the search's predicate (evaluated like the loop body) holding wherever the loop escapes; what the loop visits is read from the term of its iterator (enumerate / zip(n..) / split_at / slicing / skip / chars / char_indices), not from its spelling; E4 the input itself is returned only when nothing was escaped (lazy output still unset, or a contains / position / any / all over the whole input that cannot miss a byte the loop escapes); E5 ldap_unescape is decided as a transducer: "
                "the shared unescaper is evaluated exhaustively over all 5120 (state, byte) pairs against the RFC 4515 automaton; the loop is "
                "explored as the product of its specification (unescaper state; has an escape been seen?; output = nothing / input[..k] at "
                "the first escape at offset k - empty for k = 0, yet started - / then every Value byte appended) with the program's own "
@@ -18,7 +25,7 @@ EXPLANATION = ("The escape functions are per-byte transducers; their loop bodies
                "'started' (Option, flag, emptiness of the buffer) is never read, only what it stores, copies, appends and finally returns "
                "from each reachable state: the input itself when no escape was seen, the collected output (or the UTF-8 error) when the "
                "run ends in Value, an error otherwise. Not decided: an RFC 4514 parser (there is none in the repository); round trip taken whole.")
-TRUSTED = ['String::from_utf8 / Cow semantics', 'the for loop visits the bytes in order (std enumerate)']
+TRUSTED = ['String::from_utf8 / Cow semantics', 'the for loop visits the bytes in order (std enumerate); chars() / char_indices() visit the characters of a str in order, each with the offset of its first octet', 'String::push / push_str append the UTF-8 encoding of their argument']
 UNDECIDED = ['the RFC 4514 parser side (none in the repository)', 'round-trip equality of whole strings (the per-byte transducer is decided)']
 ASSUMPTIONS = []
 SHARED = [('C08', ('P1.entry',), 'E6.filter-compiler-reads-the-whole-input')]      # the escaped value is embedded in a filter string: the compiler must read that string as given, to its last octet
@@ -34,10 +41,15 @@ def loop_of(B):
     fs = [n for n, c in walk(B.root) if n['k'] == 'For' and not any(a['k'] in ('For', 'Closure') for a, _ in c)]
     return fs[0] if len(fs) == 1 else None
 
-T_LAZY = 'core::option::Option<alloc::vec::Vec<u8>>'
-T_EAGER = 'alloc::vec::Vec<u8>'
+# The output accumulator is a growable run of octets; which std container holds it is not part of the property.  A `Vec<u8>` holds
+# the octets pushed to it; a `String` holds the UTF-8 encoding of the characters / strings pushed to it (see buf_summary).
+VEC_TY = 'alloc::vec::Vec<u8>'
+STR_TY = 'alloc::string::String'
+T_EAGER = (VEC_TY, STR_TY)
+T_LAZY = tuple('core::option::Option<%s>' % t for t in T_EAGER)
 INPUT = ('param', 'input')
 ZERO = ('lit', 0)
+IDX = ('param', 'i')
 
 def offset(a, n):
     return n if a == ZERO else absx.bin_term('Add', a, n)
@@ -51,43 +63,53 @@ def range_of(t):
 
 def byte_walk(t):
     """What a slice / iterator term over the input visits, read from the term (std semantics of the adaptors, whatever the code
-    calls its variables): (start, index0, layout) - the k-th item carries the byte input[start + k], in order, to the end of the
-    input, and, if index0 is not None, the number index0 + k; layout is 'byte' or (position of the number, position of the byte)
-    in the pair.  None if the term is not such a walk."""
+    calls its variables): (start, index0, layout, unit).  unit 'byte': the k-th item carries the octet input[start + k], in order, to
+    the end of the input, and, if index0 is not None, the number index0 + k.  unit 'char' (`chars()` / `char_indices()`): the items
+    are the characters of input[start..] in order, each a run of 1-4 octets of the input (std: a `str` is valid UTF-8 and these
+    iterators decode it character by character, none skipped, none read twice), and, if index0 is not None, the number index0 + the
+    offset of the character's first octet within input[start..] (`char_indices`: "the position is the byte offset").  layout is
+    'byte' (the item is the octet / character itself) or (position of the number, position of the octet / character) in the pair.
+    None if the term is not such a walk."""
     if t == INPUT:
-        return (ZERO, None, 'byte')
+        return (ZERO, None, 'byte', 'byte')
     k = t[0]
     if k == 'enumerate':
-        # enumerate(): pairs (k, item) with k counted from 0
+        # enumerate(): pairs (k, item) with k counted from 0.  Over octets the count is the offset; over characters it is not (a
+        # character may take several octets), so that numbering is not one this reader vouches for
         w = byte_walk(t[1])
-        return (w[0], ZERO, (0, 1)) if w is not None and w[1] is None else None
+        return (w[0], ZERO, (0, 1), 'byte') if w is not None and w[1] is None and w[3] == 'byte' else None
     if k == 'field' and t[2] in ('0', '1') and t[1][0] == 'call' and t[1][1] == 'core::slice::<impl [T]>::split_at' and len(t[1][2]) == 2:
         # split_at(n).1 is [n..]  (.0 is a prefix, not a walk to the end)
         w = byte_walk(t[1][2][0])
-        return (offset(w[0], t[1][2][1]), None, 'byte') if t[2] == '1' and w is not None and w[1] is None else None
+        return (offset(w[0], t[1][2][1]), None, 'byte', 'byte') if t[2] == '1' and w is not None and w[1] is None and w[3] == 'byte' else None
     if k == 'index':
         r = range_of(t[2])
         w = byte_walk(t[1])
-        if r is not None and r[1] is None and w is not None and w[1] is None:
-            return (offset(w[0], r[0]) if r[0] is not None else w[0], None, 'byte')
+        if r is not None and r[1] is None and w is not None and w[1] is None and w[3] == 'byte':
+            return (offset(w[0], r[0]) if r[0] is not None else w[0], None, 'byte', 'byte')
         return None
     if k == 'call':
         cal, args = t[1], t[2]
         if cal == 'core::str::<impl str>::bytes' and len(args) == 1:
             return byte_walk(args[0])
+        if cal in ('core::str::<impl str>::chars', 'core::str::<impl str>::char_indices') and len(args) == 1:
+            w = byte_walk(args[0])
+            if w is not None and w[1] is None and w[3] == 'byte':
+                return (w[0], None, 'byte', 'char') if cal.endswith('::chars') else (w[0], ZERO, (0, 1), 'char')
+            return None
         if cal == 'core::iter::traits::iterator::Iterator::zip' and len(args) == 2:
-            # zip(n.., walk) / zip(walk, n..): the open counter numbers the items from n
+            # zip(n.., walk) / zip(walk, n..): the open counter numbers the items from n (octets only: see enumerate)
             for ci, wi in ((0, 1), (1, 0)):
                 r = range_of(args[ci])
                 w = byte_walk(args[wi])
-                if r is not None and r[0] is not None and r[1] is None and args[ci][1].endswith('RangeFrom') and w is not None and w[1] is None:
-                    return (w[0], r[0], (ci, wi))
+                if r is not None and r[0] is not None and r[1] is None and args[ci][1].endswith('RangeFrom') and w is not None and w[1] is None and w[3] == 'byte':
+                    return (w[0], r[0], (ci, wi), 'byte')
             return None
         if cal == 'core::iter::traits::iterator::Iterator::skip' and len(args) == 2:
-            # skip(n) drops the first n items: bytes and numbers both move on by n
+            # skip(n) drops the first n items: octets and numbers both move on by n (n characters are not n octets)
             w = byte_walk(args[0])
-            if w is not None:
-                return (offset(w[0], args[1]), None if w[1] is None else offset(w[1], args[1]), w[2])
+            if w is not None and w[3] == 'byte':
+                return (offset(w[0], args[1]), None if w[1] is None else offset(w[1], args[1]), w[2], 'byte')
     return None
 
 def is_whole_walk(t):
@@ -106,32 +128,321 @@ def prefix_end(t):
         return t[1][2][1]
     return None
 
-def vec_content(v):
-    """the content of a vector term as a list of pieces, in order (absx: ('vec', elements) known elements; ('vecpush', v, x) v then
-    the element x; ('concat', v, list) v then the elements of the list); any other term is one piece"""
-    if v[0] == 'vec':
-        return list(v[1])
-    if v[0] in ('vecpush', 'concat') and len(v) == 3:
-        return vec_content(v[1]) + [v[2]]
-    return [v]
+# ---------------------------------------------------------------------------------------
+# Octet buffers: *what octets reach the output*, whatever container collects them.
+#
+# A `Vec<u8>` and a `String` are both a reference ('bufref', n) to a content in the heap: the ordered tuple of the items appended,
+#       ('lit', b)        the octet b
+#       ('pre', n)        the octets input[..n]              ('in', lo, hi)   the octets input[lo..hi]
+#       ('chr', t)        the UTF-8 encoding of the character t (1-4 octets; t is not a literal)
+#       ('seg', t)        the octets of the sequence t, of which nothing is known
+#       any other term    one octet, the value of that term
+# The std functions that write to them, each stated once for all arguments (buf_summary):
+#       Vec::<u8>::push(b)                    appends the octet b
+#       String::push(ch)                      appends the UTF-8 encoding of ch: one octet (ch itself) for ch < U+0080, otherwise 2-4
+#                                             octets none of which is < 0x80 (so for `b as char` / char::from(b) with b >= 0x80 -
+#                                             the code point U+00NN, NN = b - the two octets c2/c3 .., NOT b)
+#       String::push_str(s), Vec::extend(s), Vec::extend_from_slice(s)      append the octets of s (a &str's octets are its UTF-8 encoding)
+#       String::from_utf8(v)                  keeps the octets of v (or fails); as_bytes / as_str / into_bytes / to_owned likewise
+# Reference semantics: every alias (`if let Some(out) = &mut output`, `output.as_mut().unwrap()`, a `&mut` parameter of a helper,
+# the value `get_or_insert_with` hands back) reads and writes the same content.
 
-VEC_WRITES = ('push', 'extend', 'extend_from_slice', 'append', 'insert', 'resize', 'extend_from_within', 'push_str')
+ACC = ('bufref', 'acc')
+NONEMPTY = ('old', 'nonempty')
+EARLIER = ('old', 'earlier')        # whatever the earlier iterations have appended (possibly nothing)
+BUF_NO_EFFECT = ('reserve', 'reserve_exact', 'shrink_to_fit', 'shrink_to')
+BUF_READS = ('capacity', 'as_slice', 'first', 'last', 'get', 'contains', 'starts_with', 'ends_with', 'iter', 'chars', 'char_indices', 'bytes')
+NEW_BUF = ('alloc::vec::Vec::<T>::new', 'alloc::vec::Vec::<T>::with_capacity', 'alloc::string::String::new', 'alloc::string::String::with_capacity')
+
+def is_buf(t):
+    return isinstance(t, tuple) and len(t) == 2 and t[0] == 'bufref'
+
+def char_octets(x):
+    """what String::push(x) appends: the UTF-8 encoding of the character x - computed for a character literal (a code point that
+    reached a `char` position through a value-preserving conversion is that character), ('chr', x) for any other term"""
+    o = absx.ordinal(x)
+    if o is not None and 0 <= o[1] <= 0x10ffff and not 0xd800 <= o[1] <= 0xdfff:
+        return tuple(('lit', b) for b in chr(o[1]).encode('utf-8'))
+    return (('chr', x),)
+
+def ext_items(src, chars=False):
+    """what extending an octet buffer by the sequence `src` appends: the octets of a literal sequence one by one (of a string
+    literal: its UTF-8 encoding; with chars=True the elements of an array are characters, each appended as its encoding); the
+    prefix input[..n] as one item ('pre', n), another slice input[lo..hi] as ('in', lo, hi); any other source as one opaque item"""
+    if src[0] == 'array':
+        return tuple(o for x in src[1] for o in char_octets(x)) if chars else tuple(src[1])
+    if src[0] == 'lit' and isinstance(src[1], bytes):
+        return tuple(('lit', x) for x in src[1])
+    if src[0] == 'lit' and isinstance(src[1], str):
+        return tuple(('lit', x) for x in src[1].encode('utf-8'))
+    if src[0] == 'call' and src[1] == 'core::char::methods::<impl char>::encode_utf8' and len(src[2]) == 2:
+        # ch.encode_utf8(&mut scratch): "encodes this character as UTF-8 into the provided byte buffer, and then returns the subslice
+        # of the buffer that contains the encoded character" - the octets String::push(ch) would append
+        return char_octets(src[2][0])
+    n = prefix_end(src) if src[0] in ('index', 'field') else None
+    if n is not None:
+        return (('pre', n),)
+    if src[0] == 'index' and src[1] == INPUT:
+        r = range_of(src[2])
+        if r is not None and r[0] is not None and r[1] is not None and src[2][1].rsplit('::', 1)[-1] == 'Range':
+            return (('in', r[0], r[1]),)
+    return (('seg', src),)
+
+def item_empty(x):
+    """True / False / None: the item stands for no octet / at least one / not known"""
+    if x[0] == 'pre':
+        n = x[1]
+        return (n[1] == 0) if n[0] == 'lit' and isinstance(n[1], int) and not isinstance(n[1], bool) else None
+    if x[0] == 'in':
+        if x[1] == x[2]:
+            return True
+        if all(n[0] == 'lit' and isinstance(n[1], int) and not isinstance(n[1], bool) for n in x[1:3]):
+            return x[1][1] >= x[2][1]
+        return None
+    if x[0] == 'seg' or x == EARLIER:
+        return None
+    return False         # a pushed octet; the encoding of a character; earlier content known to be non-empty
+
+def canon(content):
+    """the content without the items that stand for no octet (input[..0] is the empty slice)"""
+    return None if content is None else tuple(x for x in content if item_empty(x) is not True)
+
+def set_heap(st, key, val):
+    h = dict(st.heap); h[key] = val
+    return absx.St(st.env, h, st.ev, st.pc, st.ctr)
+
+def new_buf(st, content):
+    u, s2 = st.fresh('buf')
+    return absx.Out('val', ('bufref', u[2]), set_heap(s2, ('buf', u[2]), tuple(content)))
+
+def buf_summary(I, cal, args, node, st):
+    """The std models listed above.  Also: new / with_capacity - a new empty buffer; a transparent conversion of a slice or string
+    into a Vec<u8> / String (to_vec, to_owned, to_string, From) - a new buffer holding its octets; clear empties; reserve & co. change
+    nothing observable; is_empty / len (both count octets, for a String too) are answered from the content when it is known.  Any
+    other call that receives the buffer is recorded as 'buf-unmodelled' (the rules fail closed on it)."""
+    name = cal.rsplit('::', 1)[-1]
+    if not args or not is_buf(args[0]):
+        ty = hirq.strip_refs(node.get('ty') or '')
+        if ty in T_EAGER and any(cal.endswith(x) for x in NEW_BUF):
+            return [new_buf(st, ())]
+        if ty in T_EAGER and len(args) == 1 and hirq.is_transparent(cal) and not absx.leaves(args[0], is_buf):
+            from_char = node.get('k') == 'MethodCall' and hirq.strip_refs(node['recv'].get('ty') or '') == 'char'
+            return [new_buf(st, char_octets(args[0]) if from_char else ext_items(args[0]))]
+        return None
+    key = ('buf', args[0][1])
+    cur = st.heap.get(key)
+    if cur is None:
+        return [absx.Out('val', ('call', cal, tuple(args), node.get('id')), st.event(('buf-unmodelled', cal, node)))]
+    string = 'alloc::string::String' in cal
+    if name == 'push' and len(args) == 2 and (string or 'alloc::vec::Vec' in cal):
+        return [absx.Out('val', absx.UNIT, set_heap(st, key, cur + (char_octets(args[1]) if string else (args[1],))).event(('buf-write', 'push', args[1], node)))]
+    if (name == 'push_str' and string or name in ('extend', 'extend_from_slice') and 'alloc::vec::Vec' in cal) and len(args) == 2:
+        src = args[1]
+        if is_buf(src) and src != args[0] and st.heap.get(('buf', src[1])) is not None:
+            return [absx.Out('val', absx.UNIT, set_heap(st, key, cur + st.heap[('buf', src[1])]).event(('buf-write', 'extend', src, node)))]      # the octets another buffer holds
+        if not absx.leaves(src, is_buf):
+            return [absx.Out('val', absx.UNIT, set_heap(st, key, cur + ext_items(src)).event(('buf-write', 'extend', src, node)))]
+    if name == 'extend' and string and len(args) == 2 and args[1][0] == 'array':
+        # String: Extend<char>: the characters of the array, in order, each appended like push
+        return [absx.Out('val', absx.UNIT, set_heap(st, key, cur + ext_items(args[1], chars=True)).event(('buf-write', 'extend', args[1], node)))]
+    if name == 'clear' and len(args) == 1:
+        return [absx.Out('val', absx.UNIT, set_heap(st, key, ()).event(('buf-write', 'clear', None, node)))]
+    if name in BUF_NO_EFFECT:
+        return [absx.Out('val', absx.UNIT, st)]
+    if name == 'is_empty' and len(args) == 1:
+        es = [item_empty(x) for x in cur]
+        if any(e is False for e in es):
+            return [absx.Out('val', absx.FALSE, st)]
+        if all(e is True for e in es):
+            return [absx.Out('val', absx.TRUE, st)]
+        return [absx.Out('val', ('call', cal, (args[0], cur), None), st)]
+    if name == 'len' and len(args) == 1:
+        if all(x[0] not in ('pre', 'in', 'seg', 'old', 'chr') or item_empty(x) is True for x in cur):
+            return [absx.Out('val', ('lit', len(canon(cur))), st)]
+        return [absx.Out('val', ('call', cal, (args[0], cur), None), st)]
+    if name in BUF_READS or hirq.is_transparent(cal):
+        return None
+    return [absx.Out('val', ('call', cal, tuple(args), node.get('id')), st.event(('buf-unmodelled', cal, node)))]
+
+class BufInterp(absx.Interp):
+    """absx with buf_summary in force.  mode 'upto': a path that reaches the byte loop ends there (kind 'atloop') with the term of
+    what the loop iterates over.  mode 'around': the byte loop is stepped over, leaving the loop-carried locals / buffer contents
+    with the values in `after`."""
+    stop_at, mode, after = None, None, ({}, {})
+    def ev_MethodCall(self, e, st):
+        # a method of a buffer reference goes to buf_summary whatever the receiver expression looks like (the interpreter's own
+        # Vec::push model is for vectors held by value in a local)
+        if any(o.kind == 'val' and is_buf(o.val) for o in self.ev(e['recv'], st)):
+            res, abn = self.seq([e['recv']] + e['args'], st)
+            outs = list(abn)
+            for vals, s in res:
+                outs.extend(self.call(callee_of(e) or ('<method %s>' % e.get('name')), vals, e, s))
+            return outs
+        return super().ev_MethodCall(e, st)
+    def ev_AssignOp(self, e, st):
+        # `s += x` on a buffer: for a String it is push_str (std: `impl AddAssign<&str> for String` "appends"); any other
+        # compound assignment to a buffer is a write without a model
+        if any(o.kind == 'val' and is_buf(o.val) for o in self.ev(e['l'], st)):
+            res, abn = self.seq([e['l'], e['r']], st)
+            outs = list(abn)
+            for (a, b), s in res:
+                if is_buf(a) and e['op'].replace('Assign', '') == 'Add' and hirq.strip_refs(e['l'].get('ty') or '') == STR_TY:
+                    outs.extend(buf_summary(self, 'alloc::string::String::push_str', [a, b], e, s))
+                else:
+                    outs.append(absx.Out('val', absx.UNIT, s.event(('buf-unmodelled', 'a compound assignment', e))))
+            return outs
+        return super().ev_AssignOp(e, st)
+    def assign(self, lhs, val, st, node):
+        # `*r = v` where r refers to a buffer: the buffer's content is replaced by v's (known when v is a buffer itself)
+        if lhs['k'] == 'Unary' and lhs.get('op') == 'Deref':
+            inner = hirq.peel_refs(lhs['e'])
+            cur = st.env.get(inner['bind']) if inner['k'] == 'Path' and inner.get('res') == 'local' else None
+            if cur is not None and is_buf(cur):
+                if is_buf(val) and st.heap.get(('buf', val[1])) is not None and st.heap.get(('buf', cur[1])) is not None:
+                    return [absx.Out('val', absx.UNIT, set_heap(st, ('buf', cur[1]), st.heap[('buf', val[1])]).event(('buf-write', 'replace', val, node)))]
+                return [absx.Out('val', absx.UNIT, st.event(('buf-unmodelled', 'an assignment through a reference', node)))]
+        return super().assign(lhs, val, st, node)
+    def inline_call(self, cal, args, node, st):
+        # a workspace helper is evaluated by an interpreter of this same kind: a `&mut` buffer handed to it is the same buffer
+        # (absx.Interp.inline_call, with the class of the sub-interpreter the only difference)
+        rec = self.facts.hir.get(cal) or getattr(self.facts, 'hir_all', {}).get(cal)
+        if rec is None or getattr(self, '_depth', 0) > 6:
+            return None
+        B = hirq.Body(self.facts, rec)
+        sub = type(self)(self.facts, B, self.summaries, self.unroll, self.inline, self.field_hook, self.for_once, self.result_combinators, self.combinators,
+                         self.generic_loops, self.domain, self.local_try, self.places)
+        sub._depth = getattr(self, '_depth', 0) + 1
+        sub.member_range = self.member_range
+        sub.exact_seqs, sub.carry_vecs = self.exact_seqs, self.carry_vecs
+        sub.carry_env, sub.carry_exact = self.carry_env, self.carry_exact
+        states = [absx.St({}, st.heap, st.ev, st.pc, st.ctr)]
+        for p, a in zip(rec['params'], args):
+            states = [s2 for s in states for kind, s2 in sub.match(p, a, s) if kind != 'no']
+        outs = []
+        for s in states:
+            for o in sub.ev(B.root, s):
+                if o.kind in ('val', 'ret'):
+                    outs.append(absx.Out('val', o.val, absx.St(st.env, o.st.heap, o.st.ev, o.st.pc, o.st.ctr)))
+                elif o.kind == 'div':
+                    outs.append(absx.Out('div', o.val, absx.St(st.env, o.st.heap, o.st.ev, o.st.pc, o.st.ctr)))
+        return outs
+    def ev_For(self, e, st):
+        if e is self.stop_at and self.mode == 'upto':
+            return [absx.Out('atloop', o.val, o.st) if o.kind == 'val' else o for o in self.ev(e['iter'], st)]
+        if e is self.stop_at and self.mode == 'around':
+            outs = []
+            for o in self.ev(e['iter'], st):
+                if o.kind != 'val':
+                    outs.append(o); continue
+                env = dict(o.st.env); env.update(self.after[0])
+                heap = dict(o.st.heap); heap.update(self.after[1])
+                outs.append(absx.Out('val', absx.UNIT, absx.St(env, heap, o.st.ev + (('loop-done',),), o.st.pc, o.st.ctr)))
+            return outs
+        return super().ev_For(e, st)
+
+VEC_WRITES = ('push', 'extend', 'extend_from_slice', 'append', 'insert', 'resize', 'extend_from_within', 'push_str', 'insert_str')
 SEARCHES = ('position', 'any', 'find', 'all')
 
-class UpToLoop(absx.Interp):
-    """The function evaluated from its entry up to the byte loop: a path that reaches the loop ends there with the term of what the
-    loop iterates over (kind 'atloop'); the other paths are the ones that leave the function before the loop."""
-    stop_at = None
-    def ev_For(self, e, st):
-        if e is self.stop_at:
-            return [absx.Out('atloop', o.val, o.st) if o.kind == 'val' else o for o in self.ev(e['iter'], st)]
-        return super().ev_For(e, st)
+# ---------------------------------------------------------------------------------------
+# The items of a walk over the input, as a finite partition that is evaluated exhaustively.
+#   a walk by octets:      the 256 octet values, each a literal;
+#   a walk by characters:  the 128 ASCII characters, each a literal (one octet of the input, the character's code), and the
+#                          non-ASCII characters as three classes by the length L = 2, 3, 4 of their UTF-8 encoding, each class one
+#                          symbolic character of which exactly this is known: it is not ASCII (is_ascii and every is_ascii_* are false),
+#                          len_utf8() is L, its code point lies in the class's range (U+0080..07FF, U+0800..FFFF, U+10000..10FFFF), so it
+#                          differs from / orders against every character literal outside that range as the range says.  Whatever the
+#                          body does with it that these facts do not decide (its low octet, say) forks, and the rules see both outcomes.
+# Class keys: the int c for the octet / ASCII character c; ('na', L) for a non-ASCII class.
+NA_RANGE = {2: (0x80, 0x7ff), 3: (0x800, 0xffff), 4: (0x10000, 0x10ffff)}
+
+def nonascii(L):
+    return ('param', 'a non-ASCII character (%d octets)' % L)
+
+NA_TERMS = {nonascii(L): L for L in NA_RANGE}
+
+def classes_of(unit):
+    return list(range(256)) if unit == 'byte' else list(range(128)) + [('na', L) for L in sorted(NA_RANGE)]
+
+def class_len(cls):
+    """the number of octets of the input an item of the class stands for"""
+    return 1 if isinstance(cls, int) else cls[1]
+
+def class_name(cls, unit='byte'):
+    if isinstance(cls, int):
+        return ('byte 0x%02x' if unit == 'byte' else 'character 0x%02x') % cls
+    return 'a non-ASCII character of %d octets' % cls[1]
+
+def char_model(I, cal, args, node, st):
+    """std functions of `char`, on the non-ASCII classes and on literals:
+      is_ascii / is_ascii_*      false for every character outside ASCII (std: "checks if the value is within the ASCII range")
+      len_utf8                   the class's L; of a character literal the length of its UTF-8 encoding
+      char::from(b: u8)          the character with code point b ("maps a byte in 0x00..=0xFF to a char whose code point has the same value")
+      char::from_u32(n)          Some(that character) for a Unicode scalar value (0..=0x10FFFF without the surrogates D800..=DFFF), None otherwise
+      char::from_digit(d, r)     for 2 <= r <= 36: Some(the digit d in radix r: '0'..'9' then LOWER-case 'a'..) if d < r, None otherwise"""
+    name = cal.rsplit('::', 1)[-1]
+    if cal.startswith('core::char::methods::<impl char>::') and len(args) >= 1 and args[0] in NA_TERMS:
+        if len(args) == 1 and (name == 'is_ascii' or name in absx.ASCII_CLASSES):
+            return [absx.Out('val', absx.FALSE, st)]
+        if len(args) == 1 and name == 'len_utf8':
+            return [absx.Out('val', ('lit', NA_TERMS[args[0]]), st)]
+        return None
+    if cal == 'core::char::methods::<impl char>::len_utf8' and len(args) == 1 and absx.ordinal(args[0]) is not None and absx.ordinal(args[0])[0] == 'char':
+        return [absx.Out('val', ('lit', len(args[0][1].encode('utf-8'))), st)]
+    lit_int = lambda x: x[0] == 'lit' and isinstance(x[1], int) and not isinstance(x[1], bool)
+    if name == 'from' and ('core::convert::From<u8>' in cal and ' for char' in cal or cal == '<char as core::convert::From<u8>>::from') and len(args) == 1 and lit_int(args[0]) and 0 <= args[0][1] <= 255:
+        return [absx.Out('val', ('lit', chr(args[0][1])), st)]
+    if name == 'from_u32' and cal.startswith('core::char::') and len(args) == 1 and lit_int(args[0]):
+        n = args[0][1]
+        ok = 0 <= n <= 0x10ffff and not 0xd800 <= n <= 0xdfff
+        return [absx.Out('val', ('ctor', 'Some', (('lit', chr(n)),)) if ok else ('ctor', 'None', ()), st)]
+    if name == 'from_digit' and cal.startswith('core::char::') and len(args) == 2 and lit_int(args[0]) and lit_int(args[1]) and 2 <= args[1][1] <= 36:
+        d, r = args[0][1], args[1][1]
+        return [absx.Out('val', ('ctor', 'Some', (('lit', '0123456789abcdefghijklmnopqrstuvwxyz'[d]),)) if 0 <= d < r else ('ctor', 'None', ()), st)]
+    return None
+
+class CharOrder:
+    """absx value domain: `char` is ordered by code point, so a character of a non-ASCII class compares with a character literal
+    outside the class's range as every member of the range does; everything else is left to the interpreter (None)."""
+    @staticmethod
+    def rel(a, b):
+        """-1 / 1: a is below / above b for every member of a's class; None: not decided"""
+        o = absx.ordinal(b)
+        if a in NA_TERMS and o is not None and o[0] == 'char':
+            lo, hi = NA_RANGE[NA_TERMS[a]]
+            return -1 if hi < o[1] else 1 if lo > o[1] else None
+        return None
+    def eq(self, v, pv):
+        return False if self.rel(v, pv) is not None or self.rel(pv, v) is not None else None
+    def binop(self, op, a, b):
+        r = self.rel(a, b)
+        if r is None:
+            r = self.rel(b, a)
+            r = -r if r is not None else None
+        if r is None or op not in ('Eq', 'Ne', 'Lt', 'Le', 'Gt', 'Ge'):
+            return None
+        return {'Eq': False, 'Ne': True, 'Lt': r < 0, 'Le': r < 0, 'Gt': r > 0, 'Ge': r > 0}[op]
+    def index(self, I, a, b, e, s):
+        return None
+    def iter_elems(self, I, itv, st, e):
+        return None
+
+# Where the item stands, for a function whose decision depends on the position: the four places that differ - the only item of
+# the value, the first, a middle and the last item of a longer one - as (offset of the item's first octet, length of the input in
+# octets), for an item of L octets.  (For L = 1: (0, 1), (0, 3), (1, 3), (2, 3).)
+ROLES = ('only', 'first', 'middle', 'last')
+
+def position(role, L):
+    return None if role is None else {'only': (0, L), 'first': (0, L + 2), 'middle': (1, L + 2), 'last': (2, L + 2)}[role]
+
+class Undecodable(Exception):
+    pass
 
 class Escaper:
     """The roles of an escape function, found by type and data flow (never by name): the working copy of the input (a Cow<str>
-    that comes from the parameter), the byte loop over it, the output accumulator declared before the loop (an Option<Vec<u8>>
-    filled lazily from the first escape on, or a Vec<u8> filled from the start).  What the loop visits is read from the term of its
-    iterator on the paths that reach it (byte_walk): the bytes of the input from `start` on, possibly numbered."""
+    that comes from the parameter), the one loop over it, the output accumulator alive when the loop is reached (an octet buffer -
+    Vec<u8> or String - filled from the start, or an Option of one, filled lazily from the first escape on).  What the loop visits
+    is read from the term of its iterator on the paths that reach it (byte_walk): the octets / characters of the input from
+    `start` on, possibly numbered."""
     def __init__(self, f, path, pname, inline=None):
         self.f, self.path = f, path
         self.B = B = hirq.Body(f, f.body(path))
@@ -143,29 +454,34 @@ class Escaper:
         self.inb = [b for b, d in B.defs.items() if d['kind'] == 'let' and (d['pat'].get('ty') or '').startswith("alloc::borrow::Cow<") and d['src'] is not None
                     and B.roots(B.origin(d['src'])) == {('param', pname)}]
         accs = [(b, hirq.strip_refs(d['pat'].get('ty') or '')) for b, d in B.defs.items() if d['kind'] == 'let' and id(d['node']) not in inside
-                and hirq.strip_refs(d['pat'].get('ty') or '') in (T_LAZY, T_EAGER)]
+                and hirq.strip_refs(d['pat'].get('ty') or '') in T_LAZY + T_EAGER]
         # declared outside the loop: the Let statement is not a descendant of the loop
         accs = [(b, t) for b, t in accs if not any(x is B.defs[b]['node'] for blk, _c in walk(self.loop) if blk['k'] == 'Block' for x in blk['stmts'])]
         self.accs = accs
-        self.lazy = any(t == T_LAZY for b, t in accs)
+        self.lazy = any(t in T_LAZY for b, t in accs)
         # locals that are never written after their declaration keep, inside the loop, the value they have when the loop is reached
         self.frozen = {b for b, d in B.defs.items() if 'Mut' not in (d['pat'].get('mode') or 'Mut').split(',')[-1] and b not in B.assigns}
         self._approach = {}
         ents = self.approach(None)[0]
+        # the accumulator: the one of them that exists when the loop is reached (one declared after the loop - the unwrapped
+        # result, say - is not it)
+        alive = [(b, t) for b, t in accs if ents and all(b in e_.st.env for e_ in ents)]
+        self.acc = alive[0] if len(alive) == 1 else None
         walks = [byte_walk(o.val) for o in ents]
         self.walk = walks[0] if walks and all(w is not None and w == walks[0] for w in walks) else None
         w = self.walk
-        # in order, every byte from `start` on, the running number (if any) being the byte's index in the input; `start` is the
-        # beginning of the input or the index a first-match search over the whole input has found
+        # in order, every octet (character) from `start` on, the running number (if any) being the offset of the item's first octet
+        # in the input; `start` is the beginning of the input or the index a first-match search over the whole input has found
         self.iter_ok = w is not None and w[1] in (None, w[0]) and (w[0] == ZERO or self.start_search(w[0]) is not None)
         self.indexed = w is not None and w[1] is not None
         self.two_phase = w is not None and w[0] != ZERO
+        self.unit = w[3] if w is not None else 'byte'
 
     @staticmethod
     def start_search(start):
-        """the search atom (see absx: position) if `start` is the index of the first item of a walk over the whole input that
-        satisfies a predicate"""
-        if start[0] == 'posidx' and start[1][0] == 'position' and is_whole_walk(start[1][1]):
+        """the search atom (see absx: position) if `start` is the index of the first item of a walk by octets over the whole input
+        that satisfies a predicate (the count `position` answers is an offset only when the items are octets)"""
+        if start[0] == 'posidx' and start[1][0] == 'position' and is_whole_walk(start[1][1]) and byte_walk(start[1][1])[3] == 'byte':
             return start[1]
         return None
 
@@ -181,9 +497,9 @@ class Escaper:
                     and len(args) == 2 and args[1][0] in ('closure', 'fn'):
                 searches.append({'name': cal.rsplit('::', 1)[-1], 'src': args[0], 'pred': args[1], 'node': node, 'st': st, 'I': I})
             return None
-        summaries = [recorder] + ([self.length_summary(pos[1])] if pos is not None else [])
-        I = UpToLoop(self.f, self.B, inline=self.inline, combinators=True, summaries=summaries)
-        I.stop_at = self.loop
+        summaries = [recorder] + ([self.length_summary(pos[1])] if pos is not None else []) + [buf_summary, char_model]
+        I = BufInterp(self.f, self.B, inline=self.inline, combinators=True, summaries=summaries, domain=CharOrder())
+        I.stop_at, I.mode = self.loop, 'upto'
         env = {b: (INPUT if v[0] == 'param' else v) for b, v in I.param_env().items()}
         outs = I.ev(self.B.root, absx.St(env))
         r = ([o for o in outs if o.kind == 'atloop'], [o for o in outs if o.kind != 'atloop'], searches, I)
@@ -199,104 +515,131 @@ class Escaper:
             return None
         return length_of_input
 
-    def item(self, c, pos):
-        """the loop's item for the literal byte c at position pos"""
-        return self.item_of(self.walk[2] if self.walk is not None else 'byte', c, pos)
-
     @staticmethod
-    def item_of(layout, c, pos):
+    def item_of(layout, cls, pos, unit='byte'):
+        """the loop's (a search's) item for the class cls at position pos"""
+        v = ('lit', cls) if unit == 'byte' else ('lit', chr(cls)) if isinstance(cls, int) else nonascii(cls[1])
         if layout == 'byte':
-            return ('lit', c)
+            return v
         pair = [None, None]
-        pair[layout[0]] = ('lit', pos[0]) if pos is not None else ('param', 'i')
-        pair[layout[1]] = ('lit', c)
+        pair[layout[0]] = ('lit', pos[0]) if pos is not None else IDX
+        pair[layout[1]] = v
         return ('tuple', tuple(pair))
 
-    def run_byte(self, c, started, inline, pos=None):
-        """the loop body for the literal byte c: [(path outcome, bytes it emits, prefix-copy events)].  With pos = (i, n) the byte is the
-        i-th of an input of n bytes: the index is that literal and every length taken of the input is n, so position tests are
-        decided exactly however they are spelled (`i == 0`, `match i { 0 => .. }`, `i + 1 == len`, a hoisted `let len = ..`, a
-        closure that captures it)."""
+    @staticmethod
+    def facts_of(cls, st):
+        """the path-condition facts of a non-ASCII class: its code point, should the body ask for it as a number"""
+        if not isinstance(cls, int):
+            lo, hi = NA_RANGE[cls[1]]
+            st = st.assume(('range', ('cast', nonascii(cls[1]), 'u32'), lo, hi), True)
+        return st
+
+    def content_after(self, st):
+        """what the accumulator holds: None (a lazy one, unset) or the tuple of items"""
+        b, t = self.acc
+        v = st.env.get(b, ('unk', 'acc'))
+        if t in T_LAZY:
+            if v == ('ctor', 'None', ()):
+                return None
+            if not (v[0] == 'ctor' and v[1] == 'Some' and len(v[2]) == 1):
+                raise Undecodable('the output holds %s' % absx.fmt(v)[:60])
+            v = v[2][0]
+        if not is_buf(v) or ('buf', v[1]) not in st.heap:
+            raise Undecodable('the output holds %s' % absx.fmt(v)[:60])
+        return canon(st.heap[('buf', v[1])])
+
+    def run_item(self, cls, started, pos=None):
+        """The loop body for one item of class cls, the output holding what the earlier iterations appended (started) or being unset (a lazy
+        one, not started) before it: [(path outcome, what this iteration has added - the content afterwards, see content_after, less
+        the earlier content, which must still be there; None = still unset; a string if that cannot be read)].  With pos = (i, n)
+        the item's first octet is the i-th of an input of n octets: the index is that literal and every length taken of the input
+        is n, so position tests are decided exactly however they are spelled (`i == 0`, `match i { 0 => .. }`, `i + 1 == len`,
+        a hoisted `let len = ..`, a closure that captures it)."""
         ents, _early, _s, I = self.approach(pos)
         res = []
+        b, t = self.acc
         for ent in ents:
             # the immutable locals declared before the loop have the value with which the loop is reached
-            env = {b: v for b, v in ent.st.env.items() if b in self.frozen}
-            for b, t in self.accs:
-                env[b] = (('ctor', 'Some', (('vec', ()),)) if started else ('ctor', 'None', ())) if t == T_LAZY else ('vec', ())
-            for b in self.inb:
-                env[b] = INPUT
-            for kind, s0 in I.match(self.loop['pat'], self.item(c, pos), absx.St(env, pc=ent.st.pc, ctr=ent.st.ctr)):
+            env = {x: v for x, v in ent.st.env.items() if x in self.frozen}
+            env[b] = (('ctor', 'Some', (ACC,)) if started else ('ctor', 'None', ())) if t in T_LAZY else ACC
+            for x in self.inb:
+                env[x] = INPUT
+            heap = dict(ent.st.heap)
+            # a started output holds what the earlier iterations appended: one item of unknown extent, which this iteration must keep
+            heap[('buf', 'acc')] = (EARLIER,) if started else ()
+            st0 = self.facts_of(cls, absx.St(env, heap, pc=ent.st.pc, ctr=ent.st.ctr))
+            for kind, s0 in I.match(self.loop['pat'], self.item_of(self.walk[2], cls, pos, self.walk[3]), st0):
                 if kind == 'no':
                     continue
                 for o in I.ev(self.loop['body'], s0):
-                    emitted, prefix = [], []
-                    for e in o.st.ev:
-                        if e[0] != 'call':
-                            continue
-                        m = e[1].rsplit('::', 1)[-1]
-                        if m == 'push' and 'Vec' in e[1]:
-                            emitted.append(e[2][1])
-                        elif m in ('extend', 'extend_from_slice', 'append'):
-                            arrs = absx.leaves(e[2][1], lambda x: x[0] == 'array')
-                            if arrs and not absx.leaves(e[2][1], lambda x: x == INPUT):
-                                emitted.extend(arrs[0][1])
-                            else:
-                                prefix.append(e[2][1])
-                    res.append((o, emitted, prefix))
+                    try:
+                        # a call that receives the output (or the Option that holds it) and has no model - every modelled one is
+                        # answered by a summary and leaves no 'call' event - may have written to it
+                        leaked = sorted({e[1] for e in o.st.ev[len(s0.ev):] if e[0] == 'buf-unmodelled'} |
+                                        {e[1] for e in o.st.ev[len(s0.ev):] if e[0] == 'call' and absx.leaves(('args',) + tuple(e[2]), lambda x: x == ACC)})
+                        if leaked:
+                            raise Undecodable('the output is handed to %s, for which the rules have no model' % leaked[:2])
+                        content = self.content_after(o.st)
+                        if started:
+                            if content is None or content[:1] != (EARLIER,) or EARLIER in content[1:]:
+                                raise Undecodable('what the output held before this item is not kept as it was: the output now holds %s' % describe_content(content))
+                            content = content[1:]
+                        res.append((o, content))
+                    except Undecodable as x:
+                        res.append((o, str(x)))
         return res
 
     def before_loop(self):
         """Deviations from: the loop is reached with an output that holds input[..start] and nothing else (nothing at all when the
-        loop starts at the first byte)."""
+        loop starts at the first byte; a lazy output still unset)."""
         wrong = []
         ents = self.approach(None)[0]
         if not ents or self.walk is None:
             return ['the loop is not reached / does not walk the input']
         start = self.walk[0]
         for ent in ents:
-            copies = [e[2][1] for e in ent.st.ev if e[0] == 'call' and 'Vec' in e[1] and e[1].rsplit('::', 1)[-1] in VEC_WRITES]
-            # what the output holds: the content the interpreter tracks for the local (its initial value, then what was pushed /
-            # appended: ('concat', v, list) is v followed by the list, see absx) and every write recorded as an event that this
-            # content does not already account for (a write through another name)
-            inits = [x for b, t in self.accs if t == T_EAGER for x in vec_content(ent.st.env.get(b, ('unk', 'acc')))]
-            held = list(inits)
-            rest = list(inits)
-            for c in copies:
-                if c in rest:
-                    rest.remove(c)
-                else:
-                    held.append(c)
+            try:
+                if any(e[0] == 'buf-unmodelled' for e in ent.st.ev):
+                    raise Undecodable('the output is handed to a call the rules have no model for')
+                held = self.content_after(ent.st)
+            except Undecodable as x:
+                wrong.append('before the loop %s' % x); continue
             if start == ZERO:
-                if held and not (len(held) == 1 and prefix_end(held[0]) == ZERO):
-                    wrong.append('the output is not empty when the loop starts at the first byte: %s' % [absx.fmt(x)[:60] for x in held])
-            elif self.lazy or len(held) != 1 or prefix_end(held[0]) != start:
-                wrong.append('the loop starts at byte `start` = %s but the output holds %s instead of input[..start]' % (absx.fmt(start)[:40], [absx.fmt(x)[:60] for x in held]))
+                if held:
+                    wrong.append('the output is not empty when the loop starts at the first byte: it holds %s' % describe_content(held))
+            elif self.lazy or held is None or held != (('pre', start),):
+                wrong.append('the loop starts at byte `start` = %s but the output holds %s instead of input[..start]' % (absx.fmt(start)[:40], describe_content(held)))
         return wrong
 
-    def search_tables(self, positions):
-        """For every search over the input met before the loop, the verdict of its predicate for each (byte, position):
-        [{'name', 'src', 'table': {(c, pos): set of truth values}}] - evaluated on literals, exactly like the loop body."""
+    def search_tables(self, roles):
+        """For every search over the input met before the loop, the verdict of its predicate for each (class of item, role):
+        [{'name', 'src', 'table': {(cls, role): set of truth values}}] - evaluated on literals, exactly like the loop body."""
         recs = {}
-        for pos in positions:
-            for s in self.approach(pos)[2]:
-                w = byte_walk(s['src'])
-                if w is None:
-                    continue
-                key = (s['name'], s['src'], s['node'].get('id'))
-                rec = recs.setdefault(key, {'name': s['name'], 'src': s['src'], 'whole': is_whole_walk(s['src']), 'table': {}})
-                for c in range(256):
-                    vs = rec['table'].setdefault((c, pos), set())
-                    for o in s['I'].apply(s['pred'], [self.item_of(w[2], c, pos)], s['node'], s['st']):
-                        if o.kind != 'val':
-                            vs.add(None); continue
-                        for truth, _s in s['I'].decide(o.val, o.st) if o.val in (absx.TRUE, absx.FALSE) else [(None, None)]:
-                            vs.add(truth)
+        for role in roles:
+            for L in (1, 2, 3, 4):
+                pos = position(role, L)
+                for s in self.approach(pos)[2]:
+                    w = byte_walk(s['src'])
+                    if w is None:
+                        continue
+                    key = (s['name'], s['src'], s['node'].get('id'))
+                    rec = recs.setdefault(key, {'name': s['name'], 'src': s['src'], 'whole': is_whole_walk(s['src']), 'unit': w[3], 'table': {}})
+                    for cls in classes_of(w[3]):
+                        if class_len(cls) != L:
+                            continue
+                        vs = rec['table'].setdefault((cls, role), set())
+                        for o in s['I'].apply(s['pred'], [self.item_of(w[2], cls, pos, w[3])], s['node'], self.facts_of(cls, s['st'])):
+                            if o.kind != 'val':
+                                vs.add(None); continue
+                            for truth, _s in s['I'].decide(o.val, o.st) if o.val in (absx.TRUE, absx.FALSE) else [(None, None)]:
+                                vs.add(truth)
         return list(recs.values())
 
 def finds_all(rec, escapes):
     """the search cannot come back empty-handed (position / any / find: no item satisfies the predicate; all: every item does) on an
-    input that has one of `escapes` = {(byte, position)}: its predicate holds (all: fails) for each of them"""
+    input that has one of `escapes` = {(class, role)}: its predicate holds (all: fails) for each of them.  (An octet < 0x80 of the
+    input and the ASCII character with that code are the same item of the input, so their class keys coincide; an octet >= 0x80
+    has no counterpart in a walk by characters and is not found there.)"""
     want = {False} if rec['name'] == 'all' else {True}
     return rec['whole'] and all(rec['table'].get(k) == want for k in escapes)
 
@@ -316,59 +659,121 @@ def post_loop(B, loop):
     blk['stmts'] = root['stmts'][idx + 1:]
     return blk
 
-def escape_bytes(c):
-    return [('lit', 0x5c), ('lit', HEXCH[c >> 4]), ('lit', HEXCH[c & 15])]
+def escape_octets(c):
+    return (('lit', 0x5c), ('lit', HEXCH[c >> 4]), ('lit', HEXCH[c & 15]))
 
-def is_prefix_upto_i(t):
-    """input[..i] (as str or bytes), i the index of the byte the loop is at"""
-    cands = absx.leaves(t, lambda x: x[0] in ('index', 'field') and prefix_end(x) is not None) or ([t] if prefix_end(t) is not None else [])
-    return len(cands) == 1 and (prefix_end(cands[0]) == ('param', 'i') or prefix_end(cands[0])[0] == 'lit')
+def simple_value(v):
+    return v[0] == 'lit' or v == absx.UNIT or (v[0] == 'ctor' and all(simple_value(x) for x in v[2]))
 
-def transducer(ctx, E, name, inline, contexts, positions=(None,)):
-    """Evaluate the loop body for every byte (x output started?) and classify: returns {byte: set of (decision, context)} and the
-    list of deviations from "emit the byte itself, or backslash + two hex digits; copy the prefix exactly once, at the first escape"
-    (or, when the loop starts at the first byte a search has found: before the loop, see Escaper.before_loop)."""
-    table, wrong = {}, []
+def describe_content(c):
+    def one(x):
+        if x[0] == 'pre':
+            return 'input[..%s]' % absx.fmt(x[1])
+        if x[0] == 'in':
+            return 'input[%s..%s]' % (absx.fmt(x[1]), absx.fmt(x[2]))
+        if x[0] == 'chr':
+            return 'the encoding of %s' % absx.fmt(x[1])
+        if x[0] == 'lit' and isinstance(x[1], int) and not isinstance(x[1], bool):
+            return '%02x' % x[1]
+        return 'earlier content' if x in (NONEMPTY, EARLIER) else absx.fmt(x)[:50]
+    return c if isinstance(c, str) else 'unset' if c is None else 'empty' if not c else 'non-empty' if c == (NONEMPTY,) else '[%s]' % ', '.join(one(x) for x in c)
+
+def own_octets(cls, idx, content):
+    """does `content` denote exactly the octets of the input that the item (class cls, first octet at offset idx) stands for?
+    - the octet itself (an octet / an ASCII character: its code), the encoding of the very character (a non-ASCII class), or the
+    slice input[idx..idx + L] of the input, which is those octets by the definition of the walk"""
+    L = class_len(cls)
+    if isinstance(cls, int) and content == (('lit', cls),):
+        return True
+    if not isinstance(cls, int) and content == (('chr', nonascii(L)),):
+        return True
+    if len(content) == 1 and content[0][0] == 'in' and content[0][1] == idx:
+        end = ('lit', idx[1] + L) if idx[0] == 'lit' else offset(idx, ('lit', L))
+        return content[0][2] == end
+    return False
+
+def transducer(ctx, E, name, roles=(None,)):
+    """Evaluate the loop body for every class of item (x output started? x role of the item's position) and classify: returns
+    ({class: set of (decision, role)}, deviations of the escape path / the loop's frame, deviations of the copy path, evaluations).
+    Specification, per item: either it is *escaped* - the output grows by backslash + the two lower-case hex digits of the octet (a
+    lazy output is first set to input[..i], i the item's offset) - or it is *copied* - a started output grows by exactly the octets
+    of the input the item stands for, an unset one stays unset.  A non-ASCII character is never escaped."""
+    table, wrong, copies = {}, [], []
     n_eval = 0
     if E.walk is None:
-        return table, [('the loop does not walk the bytes of the input',)], 0
-    for c in range(256):
-      for pos in positions:
-        for started in ((False, True) if E.lazy else (True,)):
-            if pos is not None and pos[0] == 0 and started and E.lazy:
+        return table, [('the loop does not walk the bytes of the input',)], copies, 0
+    if E.acc is None:
+        return table, [('expected one output accumulator (an octet buffer or an Option of one) alive when the loop is reached, found %d' % len(E.accs),)], copies, 0
+    lazy = E.acc[1] in T_LAZY
+    unit = E.walk[3]
+    reenc = {}
+    for cls in classes_of(unit):
+      L = class_len(cls)
+      who = class_name(cls, unit)
+      for role in roles:
+        pos = position(role, L)
+        idx = ('lit', pos[0]) if pos is not None else IDX
+        for started in ((False, True) if lazy else (True,)):
+            if pos is not None and pos[0] == 0 and started and lazy:
                 continue        # nothing can have been escaped before the first byte
-            runs = E.run_byte(c, started, inline, pos)
+            ctxt = '%s%s, output %s' % (who, ' as the %s item' % role if role else '', 'started' if started else 'not started')
+            runs = E.run_item(cls, started, pos)
             if not runs:
-                wrong.append((c, started, 'the loop body was not evaluated'))
-            for o, emitted, prefix in runs:
+                wrong.append((ctxt, 'the loop body was not evaluated'))
+            for o, content in runs:
                 n_eval += 1
                 if o.kind not in ('val', 'cont'):
-                    wrong.append((c, started, 'leaves the loop: ' + o.kind)); continue
-                cx = contexts(o) if pos is None else pos
-                if emitted == escape_bytes(c):
-                    table.setdefault(c, set()).add(('escape', cx))
-                    if E.lazy and not started:
-                        okp = len(prefix) == 1 and is_prefix_upto_i(prefix[0]) and all((o.st.env.get(b) or ('unk',))[:2] == ('ctor', 'Some') for b, t in E.accs if t == T_LAZY)
-                        if not okp:
-                            wrong.append((c, started, 'prefix not copied once as input[..i] at the first escape'))
-                    elif prefix:
-                        wrong.append((c, started, 'prefix copied again'))
-                elif emitted == ([('lit', c)] if started else []) and not prefix:
-                    table.setdefault(c, set()).add(('plain', cx))
-                else:
-                    wrong.append((c, started, [absx.fmt(x) for x in emitted]))
-    wrong.extend(E.before_loop())
+                    wrong.append((ctxt, 'leaves the loop: ' + o.kind)); continue
+                if isinstance(content, str):
+                    wrong.append((ctxt, content)); continue
+                esc = escape_octets(cls) if isinstance(cls, int) else None
+                if content is not None and esc is not None and content == canon(((('pre', idx),) if lazy and not started else ()) + esc):
+                    table.setdefault(cls, set()).add(('escape', role))
+                    if lazy and not started and not E.indexed:
+                        wrong.append((ctxt, 'the prefix is copied although the loop does not number its items'))
+                    continue
+                if content is not None and len(content) >= 1 and ('lit', 0x5c) in content[:2] and not (isinstance(cls, int) and cls == 0x5c and content == (('lit', 0x5c),)):
+                    # something that begins (after a possible prefix) with a backslash: an escape, but not the specified one
+                    if esc is None:
+                        if not any(w[0] == ctxt for w in wrong):        # (one report per context: the forks over what is not known of the character differ only in the digits)
+                            wrong.append((ctxt, 'a non-ASCII character is replaced by an escape sequence: the output grows by %s' % describe_content(content)))
+                    else:
+                        why = ''
+                        if lazy and not started and content[-3:] == esc:
+                            why = ' - the prefix must be input[..%s], copied once, when the output is started' % absx.fmt(idx)
+                        elif content[-3:] == esc:
+                            why = ' - the unescaped prefix is copied again'
+                        wrong.append((ctxt, 'escaped as %s, must be %s%s' % (describe_content(content), describe_content(canon(((('pre', idx),) if lazy and not started else ()) + esc)), why)))
+                    continue
+                # the copy path
+                table.setdefault(cls, set()).add(('plain', role))
+                if not started:
+                    if content is not None:
+                        copies.append((ctxt, 'nothing was escaped so far, yet the output is set and holds %s' % describe_content(content)))
+                elif content is None or not own_octets(cls, idx, content):
+                    lits = [x[1] for x in (content or ()) if x[0] == 'lit' and isinstance(x[1], int) and not isinstance(x[1], bool)]
+                    if isinstance(cls, int) and cls >= 0x80 and content is not None and len(lits) == len(content) and bytes(lits) == chr(cls).encode('utf-8'):
+                        reenc[cls] = bytes(lits)
+                    else:
+                        copies.append((ctxt, 'the item is not escaped, so the output must grow by the very octets it stands for, but it %s' % (
+                            'is unset' if content is None else 'grows by nothing' if not content else 'grows by ' + describe_content(content))))
+    if reenc:
+        ex = 0xfc if 0xfc in reenc else sorted(reenc)[0]
+        copies.insert(0, ('%s copied through the unescaped path' % ('every byte >= 0x80' if len(reenc) == 128 else 'the bytes %s' % ['0x%02x' % c for c in sorted(reenc)][:8]),
+                          'such a byte is one octet of a multi-octet character and must reach the output as it is, but it is re-encoded as the code point U+00NN of its '
+                          'value (`b as char` / char::from(b) is Latin-1, not UTF-8) and reaches the output as two octets: 0x%02x becomes %s' % (ex, ' '.join('%02x' % b for b in reenc[ex]))))
+    wrong.extend((w,) for w in E.before_loop())
     if E.two_phase and not wrong:
         # the bytes before `start` are copied as they are: the search that found `start` must not pass over a byte the loop would escape
         escapes = {(c, cx) for c, ds in table.items() for d, cx in ds if d == 'escape'}
         atom = E.start_search(E.walk[0])
-        recs = [r for r in E.search_tables(positions) if atom is not None and r['name'] == 'position' and r['src'] == atom[1]]
+        recs = [r for r in E.search_tables(roles) if atom is not None and r['name'] == 'position' and r['src'] == atom[1]]
         if not recs:
             wrong.append(('the loop does not start at the index a first-match search over the whole input has found',))
         elif not all(finds_all(r, escapes) for r in recs):
-            missed = sorted(k for r in recs for k in escapes if r['table'].get(k) != {True})[:6]
+            missed = sorted((k for r in recs for k in escapes if r['table'].get(k) != {True}), key=str)[:6]
             wrong.append(('the bytes before the first match are copied unescaped, but the search passes over (byte, position) %s, which the loop escapes' % missed,))
-    return table, wrong, n_eval
+    return table, wrong, copies, n_eval
 
 def char_set(t):
     """the set of bytes a `contains(..)` pattern denotes: an array / slice of char or byte literals, or a single one"""
@@ -389,7 +794,7 @@ def char_set(t):
             return None
     return out
 
-def check_identity_paths(ctx, E, name, escape_set, escapes, positions=(None,)):
+def check_identity_paths(ctx, E, name, escape_set, escapes, roles=(None,)):
     """Where the function hands its input back unchanged, nothing may need escaping: either the lazy accumulator is still None
     after the loop (an escape would have started it - the per-byte rule), or an earlier test excluded every byte of the escape
     set (a `contains` over a set that covers it), or a search over the whole input with a predicate that holds for every
@@ -409,8 +814,8 @@ def check_identity_paths(ctx, E, name, escape_set, escapes, positions=(None,)):
             continue
         n_id += 1
         # (the Option that is None on the path must be the lazy accumulator as the loop leaves it - not just any Option)
-        lazy_now = [o.st.env.get(b) for b, ty in E.accs if ty == T_LAZY]
-        acc_none = any(a[0] == 'is' and a[2] == 'Some' and not t and (a[1] in lazy_now or (a[1][0] == 'carried' and a[1][1] in [b for b, ty in E.accs if ty == T_LAZY]))
+        lazy_now = [o.st.env.get(b) for b, ty in E.accs if ty in T_LAZY]
+        acc_none = any(a[0] == 'is' and a[2] == 'Some' and not t and (a[1] in lazy_now or (a[1][0] == 'carried' and a[1][1] in [b for b, ty in E.accs if ty in T_LAZY]))
                        for a, t in o.st.pc) or any(v == ('ctor', 'None', ()) for v in lazy_now)
         by_contains = False
         by_search = False
@@ -422,14 +827,17 @@ def check_identity_paths(ctx, E, name, escape_set, escapes, positions=(None,)):
             if a[0] in ('position', 'any', 'all') and t == (a[0] == 'all') and is_whole_walk(a[1]):
                 # nothing found (all: everything passes) - see absx for the atom; `find` is recorded as `position`
                 if tables is None:
-                    tables = E.search_tables(positions)
+                    tables = E.search_tables(roles)
                 recs = [r for r in tables if r['src'] == a[1] and (r['name'] if r['name'] != 'find' else 'position') == a[0]]
                 if recs and all(finds_all(r, escapes) for r in recs):
                     by_search = True
-        in_loop_ret = any(e[0] == 'call' and e[1].rsplit('::', 1)[-1] == 'push' for e in o.st.ev)
+        in_loop_ret = any(e[0] == 'call' and e[1].rsplit('::', 1)[-1] in VEC_WRITES for e in o.st.ev)
         ctx.add('E4.identity-only-when-nothing-to-escape', name, loc(B.root), (acc_none or by_contains or by_search) and not in_loop_ret,
                 'the input is returned unchanged on a path that neither left the lazy output unset nor excluded every byte of the escape set %s' % sorted(escape_set))
     return n_id
+
+def show_dev(ws, n=6):
+    return ['%s: %s' % (w[0], w[1]) if len(w) == 2 else str(w[0]) for w in ws[:n]]
 
 def run(ctx):
     f = ctx.facts
@@ -442,11 +850,12 @@ def run(ctx):
         ctx.fail('anchor-missing', 'ldap_escape loop', '', 'expected one loop over the input bytes (%s)' % e); return
     ctx.analysed['bodies'].add(E.path)
     ctx.add('E3.iterates-input-bytes-in-order', 'ldap_escape', loc(E.loop), E.iter_ok, 'the loop does not visit the bytes of the input in order')
-    table, wrong, n_eval = transducer(ctx, E, 'ldap_escape', inline_local('ldap3::util::'), lambda o: None)
-    ctx.add('E3.per-byte-transducer', 'ldap_escape', loc(E.B.root), not wrong, 'for (byte, output started) the loop body emits: %s' % wrong[:6])
+    table, wrong, copies, n_eval = transducer(ctx, E, 'ldap_escape')
+    ctx.add('E3.per-byte-transducer', 'ldap_escape', loc(E.B.root), not wrong, 'for (item of the input, output started?) the loop body deviates from "escape as backslash + two hex digits, or copy": %s' % show_dev(wrong))
+    ctx.add('E3.copied-octets-unchanged', 'ldap_escape', loc(E.B.root), not copies, 'what is not escaped must reach the output as the same octets: %s' % show_dev(copies))
     escaped = {c for c, ds in table.items() if ds == {('escape', None)}}
     mixed = {c for c, ds in table.items() if len({d for d, _ in ds}) > 1}
-    ctx.add('E3.decision-depends-on-the-byte-only', 'ldap_escape', loc(E.B.root), not mixed, 'bytes escaped only sometimes: %s' % sorted(mixed)[:8])
+    ctx.add('E3.decision-depends-on-the-byte-only', 'ldap_escape', loc(E.B.root), not mixed, 'items of the input escaped only sometimes: %s' % [class_name(c, E.unit) for c in sorted(mixed, key=str)][:8])
     vclass = C08.eval_class(f, ('fn', 'ldap3::filter::is_value_char'))
     want = (set(range(256)) - (vclass or set())) | {0x5c}
     ctx.add('E1.escape-set-agrees-with-filter-lexer', 'ldap_escape', loc(E.B.root), vclass is not None and escaped == want,
@@ -463,42 +872,44 @@ def run(ctx):
         ctx.fail('anchor-missing', 'dn_escape loop', '', 'expected one loop over the input bytes (%s)' % e); return
     ctx.analysed['bodies'].add(D.path)
     ctx.add('E3.iterates-input-bytes-in-order', 'dn_escape', loc(D.loop), D.iter_ok, 'the loop does not visit the bytes of the input in order')
-    # the loop body is evaluated for every byte in the four positions that matter: the only byte of a one-byte value, the first, a
-    # middle and the last byte of a longer one - with the index and the input's length as literals, so that every position test is
+    # the loop body is evaluated for every item in the four positions that matter: the only item of a value, the first, a middle
+    # and the last item of a longer one - with the index and the input's length as literals, so that every position test is
     # decided exactly, however it is spelled
-    ONLY, FIRST, MIDDLE, LAST = (0, 1), (0, 3), (1, 3), (2, 3)
-    table, wrong, n_eval = transducer(ctx, D, 'dn_escape', inline_local('ldap3::util::'), None, positions=(ONLY, FIRST, MIDDLE, LAST))
+    table, wrong, copies, n_eval = transducer(ctx, D, 'dn_escape', roles=ROLES)
     always, leading, trailing = set(), set(), set()
     for c, ds in table.items():
+        who = class_name(c, D.unit)
         verdict = {}
-        for d, pos in ds:
-            verdict.setdefault(pos, set()).add(d)
-        mixed = [pos for pos, v in verdict.items() if len(v) != 1]
-        if mixed or set(verdict) != {ONLY, FIRST, MIDDLE, LAST}:
-            wrong.append((c, 'not decided in positions %s' % (mixed or sorted({ONLY, FIRST, MIDDLE, LAST} - set(verdict)))))
+        for d, role in ds:
+            verdict.setdefault(role, set()).add(d)
+        mixed = [role for role, v in verdict.items() if len(v) != 1]
+        if mixed or set(verdict) != set(ROLES):
+            wrong.append((who, 'not decided in positions %s' % (mixed or sorted(set(ROLES) - set(verdict)))))
             continue
-        esc = {pos for pos, v in verdict.items() if v == {'escape'}}
-        if MIDDLE in esc:
+        esc = {role for role, v in verdict.items() if v == {'escape'}}
+        if not isinstance(c, int):
+            continue            # (a non-ASCII character is never recorded as escaped: see transducer)
+        if 'middle' in esc:
             always.add(c)
-            if esc != {ONLY, FIRST, MIDDLE, LAST}:
-                wrong.append((c, 'escaped in the middle of a value but not in positions %s' % sorted({ONLY, FIRST, MIDDLE, LAST} - esc)))
+            if esc != set(ROLES):
+                wrong.append((who, 'escaped in the middle of a value but not in positions %s' % sorted(set(ROLES) - esc)))
             continue
-        if FIRST in esc:
+        if 'first' in esc:
             leading.add(c)
-        if LAST in esc:
+        if 'last' in esc:
             trailing.add(c)
         # a one-byte value is both the first and the last byte
-        if (ONLY in esc) != (FIRST in esc or LAST in esc):
-            wrong.append((c, 'as a one-byte value it is %s, but as the first byte of a longer value it is %s and as the last %s' % (
-                'escaped' if ONLY in esc else 'not escaped', 'escaped' if FIRST in esc else 'not escaped', 'escaped' if LAST in esc else 'not escaped')))
-    ctx.add('E3.per-byte-transducer', 'dn_escape', loc(D.B.root), not wrong, 'unexpected loop-body behaviour: %s' % wrong[:6])
+        if ('only' in esc) != ('first' in esc or 'last' in esc):
+            wrong.append((who, 'as a one-byte value it is %s, but as the first byte of a longer value it is %s and as the last %s' % (
+                'escaped' if 'only' in esc else 'not escaped', 'escaped' if 'first' in esc else 'not escaped', 'escaped' if 'last' in esc else 'not escaped')))
+    ctx.add('E3.per-byte-transducer', 'dn_escape', loc(D.B.root), not wrong, 'unexpected loop-body behaviour: %s' % show_dev(wrong))
+    ctx.add('E3.copied-octets-unchanged', 'dn_escape', loc(D.B.root), not copies, 'what is not escaped must reach the output as the same octets: %s' % show_dev(copies))
     ctx.add('E2.always-escaped', 'dn_escape', loc(D.B.root), RFC4514_SPECIAL <= always and always <= (ASCII_PUNCT | {0}),
             'always-escaped set %s must contain RFC 4514\'s %s and stay within ASCII punctuation: in RFC 4514\'s must-escape set but not escaped: %s; escaped although neither NUL nor ASCII punctuation: %s' % (
                 sorted(always), sorted(RFC4514_SPECIAL), ['0x%02x' % c for c in sorted(RFC4514_SPECIAL - always)], ['0x%02x' % c for c in sorted(always - ASCII_PUNCT - {0})]))
     ctx.add('E2.leading', 'dn_escape', loc(D.B.root), leading == {0x20, 0x23}, 'escaped only in first position: %s, RFC 4514: space and #' % sorted(leading))
     ctx.add('E2.trailing', 'dn_escape', loc(D.B.root), trailing == {0x20}, 'escaped only in last position: %s, RFC 4514: space' % sorted(trailing))
-    check_identity_paths(ctx, D, 'dn_escape', always | leading | trailing, {(c, pos) for c, ds in table.items() for d, pos in ds if d == 'escape'},
-                         positions=(ONLY, FIRST, MIDDLE, LAST))
+    check_identity_paths(ctx, D, 'dn_escape', always | leading | trailing, {(c, role) for c, ds in table.items() for d, role in ds if d == 'escape'}, roles=ROLES)
     check_tail(ctx, f, D, 'dn_escape')
 
     # ------------------------------------------------------------------ E5 ldap_unescape
@@ -527,129 +938,6 @@ def run(ctx):
 # and, where the iteration's course depends on it, takes the literals of the finite partition {0 (first byte), later ones}.
 # Buffer contents are abstracted to {unset, empty, non-empty} between iterations (the program can observe no more through
 # is_empty; a `len` of a non-empty buffer is opaque and forks), but within an iteration they are exact.
-
-BUF_TY = 'alloc::vec::Vec<u8>'
-ACC = ('bufref', 'acc')
-NONEMPTY = ('old', 'nonempty')
-BUF_NO_EFFECT = ('reserve', 'reserve_exact', 'shrink_to_fit', 'shrink_to')
-BUF_READS = ('capacity', 'as_slice', 'first', 'last', 'get', 'contains', 'starts_with', 'ends_with', 'iter')
-IDX = ('param', 'i')
-
-def is_buf(t):
-    return isinstance(t, tuple) and len(t) == 2 and t[0] == 'bufref'
-
-def ext_items(src):
-    """what extending a byte buffer by `src` appends: the bytes of a literal sequence one by one; the prefix input[..n] as one
-    item ('pre', n); any other source as one opaque item"""
-    if src[0] == 'array':
-        return tuple(src[1])
-    if src[0] == 'lit' and isinstance(src[1], bytes):
-        return tuple(('lit', x) for x in src[1])
-    n = prefix_end(src) if src[0] in ('index', 'field') else None
-    if n is not None:
-        return (('pre', n),)
-    return (('seg', src),)
-
-def item_empty(x):
-    """True / False / None: the item stands for no byte / at least one / not known"""
-    if x[0] == 'pre':
-        n = x[1]
-        return (n[1] == 0) if n[0] == 'lit' and isinstance(n[1], int) and not isinstance(n[1], bool) else None
-    if x[0] == 'seg':
-        return None
-    return False         # a pushed byte; earlier content known to be non-empty
-
-def canon(content):
-    """the content without the items that stand for no byte (input[..0] is the empty slice)"""
-    return None if content is None else tuple(x for x in content if item_empty(x) is not True)
-
-def set_heap(st, key, val):
-    h = dict(st.heap); h[key] = val
-    return absx.St(st.env, h, st.ev, st.pc, st.ctr)
-
-def new_buf(st, content):
-    u, s2 = st.fresh('buf')
-    return absx.Out('val', ('bufref', u[2]), set_heap(s2, ('buf', u[2]), tuple(content)))
-
-def buf_summary(I, cal, args, node, st):
-    """Byte vectors with reference semantics: a Vec<u8> is a reference ('bufref', n) to its content in the heap, so that every
-    alias (`if let Some(out) = &mut output`, `output.as_mut().unwrap()`, a re-borrow) reads and writes the same content.  Models
-    (std semantics, for all arguments): new / with_capacity - a new empty vector; a transparent conversion of a slice into a
-    Vec<u8> (to_vec, to_owned, From) - a new vector holding that slice; push(x) appends x; extend / extend_from_slice(s) appends
-    the bytes of s; clear empties; reserve & co. change nothing observable; is_empty / len are answered from the content when it
-    is known.  Any other call that receives the vector is recorded as 'buf-unmodelled' (the rules fail closed on it)."""
-    name = cal.rsplit('::', 1)[-1]
-    if not args or not is_buf(args[0]):
-        ty = hirq.strip_refs(node.get('ty') or '')
-        if ty == BUF_TY and (cal.endswith('alloc::vec::Vec::<T>::new') or cal.endswith('alloc::vec::Vec::<T>::with_capacity')):
-            return [new_buf(st, ())]
-        if ty == BUF_TY and len(args) == 1 and hirq.is_transparent(cal) and not absx.leaves(args[0], is_buf):
-            return [new_buf(st, ext_items(args[0]))]
-        return None
-    key = ('buf', args[0][1])
-    cur = st.heap.get(key)
-    if cur is None:
-        return [absx.Out('val', ('call', cal, tuple(args), node.get('id')), st.event(('buf-unmodelled', cal, node)))]
-    if name == 'push' and len(args) == 2:
-        return [absx.Out('val', absx.UNIT, set_heap(st, key, cur + (args[1],)).event(('buf-write', 'push', args[1], node)))]
-    if name in ('extend', 'extend_from_slice') and len(args) == 2 and not absx.leaves(args[1], is_buf):
-        return [absx.Out('val', absx.UNIT, set_heap(st, key, cur + ext_items(args[1])).event(('buf-write', 'extend', args[1], node)))]
-    if name == 'clear' and len(args) == 1:
-        return [absx.Out('val', absx.UNIT, set_heap(st, key, ()).event(('buf-write', 'clear', None, node)))]
-    if name in BUF_NO_EFFECT:
-        return [absx.Out('val', absx.UNIT, st)]
-    if name == 'is_empty' and len(args) == 1:
-        es = [item_empty(x) for x in cur]
-        if any(e is False for e in es):
-            return [absx.Out('val', absx.FALSE, st)]
-        if all(e is True for e in es):
-            return [absx.Out('val', absx.TRUE, st)]
-        return [absx.Out('val', ('call', cal, (args[0], cur), None), st)]
-    if name == 'len' and len(args) == 1:
-        if all(x[0] not in ('pre', 'seg', 'old') or item_empty(x) is True for x in cur):
-            return [absx.Out('val', ('lit', len(canon(cur))), st)]
-        return [absx.Out('val', ('call', cal, (args[0], cur), None), st)]
-    if name in BUF_READS or hirq.is_transparent(cal):
-        return None
-    return [absx.Out('val', ('call', cal, tuple(args), node.get('id')), st.event(('buf-unmodelled', cal, node)))]
-
-class BufInterp(absx.Interp):
-    """absx with buf_summary in force.  mode 'upto': a path that reaches the byte loop ends there (kind 'atloop').  mode 'around':
-    the byte loop is stepped over, leaving the loop-carried locals / buffer contents with the values in `after`."""
-    stop_at, mode, after = None, None, ({}, {})
-    def ev_MethodCall(self, e, st):
-        # a method of a buffer reference goes to buf_summary whatever the receiver expression looks like (the interpreter's own
-        # Vec::push model is for vectors held by value in a local)
-        if any(o.kind == 'val' and is_buf(o.val) for o in self.ev(e['recv'], st)):
-            res, abn = self.seq([e['recv']] + e['args'], st)
-            outs = list(abn)
-            for vals, s in res:
-                outs.extend(self.call(callee_of(e) or ('<method %s>' % e.get('name')), vals, e, s))
-            return outs
-        return super().ev_MethodCall(e, st)
-    def ev_For(self, e, st):
-        if e is self.stop_at and self.mode == 'upto':
-            return [absx.Out('atloop', o.val, o.st) if o.kind == 'val' else o for o in self.ev(e['iter'], st)]
-        if e is self.stop_at and self.mode == 'around':
-            outs = []
-            for o in self.ev(e['iter'], st):
-                if o.kind != 'val':
-                    outs.append(o); continue
-                env = dict(o.st.env); env.update(self.after[0])
-                heap = dict(o.st.heap); heap.update(self.after[1])
-                outs.append(absx.Out('val', absx.UNIT, absx.St(env, heap, o.st.ev + (('loop-done',),), o.st.pc, o.st.ctr)))
-            return outs
-        return super().ev_For(e, st)
-
-class Undecodable(Exception):
-    pass
-
-def simple_value(v):
-    return v[0] == 'lit' or v == absx.UNIT or (v[0] == 'ctor' and all(simple_value(x) for x in v[2]))
-
-def describe_content(c):
-    return 'unset' if c is None else 'empty' if not c else 'non-empty' if c == (NONEMPTY,) else '[%s]' % ', '.join(
-        'input[..%s]' % absx.fmt(x[1]) if x[0] == 'pre' else 'earlier content' if x == NONEMPTY else absx.fmt(x) for x in c)
 
 class Unescape:
     """ldap_unescape's loop as a transducer (see the comment above).  Roles, by type and data flow: the byte loop and what it visits
@@ -685,7 +973,7 @@ class Unescape:
 
     def content_of(self, st):
         v = st.env.get(self.accb, ('unk', 'acc'))
-        if self.accty == T_LAZY:
+        if self.accty in T_LAZY:
             if v == ('ctor', 'None', ()):
                 return None
             if not (v[0] == 'ctor' and v[1] == 'Some' and len(v[2]) == 1):
@@ -712,7 +1000,7 @@ class Unescape:
         if content is None:
             env[self.accb] = ('ctor', 'None', ())
         else:
-            env[self.accb] = ('ctor', 'Some', (ACC,)) if self.accty == T_LAZY else ACC
+            env[self.accb] = ('ctor', 'Some', (ACC,)) if self.accty in T_LAZY else ACC
             heap[('buf', 'acc')] = tuple(content)
         return env, heap
 
@@ -960,7 +1248,14 @@ def after_loop(f, E, acc_after):
     I = PastLoop(f, E.B, combinators=True)
     I.stop_at, I.acc_after = E.loop, acc_after
     env = {b: (INPUT if v[0] == 'param' else v) for b, v in I.param_env().items()}
-    return [o.val for o in I.ev(E.B.root, absx.St(env)) if o.kind in ('val', 'ret') and ('loop-done',) in o.st.ev]
+    outs = [o for o in I.ev(E.B.root, absx.St(env)) if o.kind in ('val', 'ret') and ('loop-done',) in o.st.ev]
+    # a value that was written to after the loop is not what the loop collected: ('written-after-loop', the method)
+    def written(o):
+        tail = o.st.ev[o.st.ev.index(('loop-done',)):]
+        ws = [e[1].rsplit('::', 1)[-1] for e in tail if e[0] == 'call' and e[1].rsplit('::', 1)[-1] in VEC_WRITES + ('clear', 'truncate', 'pop', 'remove')
+              and ('alloc::vec::Vec' in e[1] or 'alloc::string::String' in e[1])]
+        return ('written-after-loop', ws[0]) if ws else None
+    return [written(o) or o.val for o in outs]
 
 def check_tail(ctx, f, E, name):
     """E4: after the loop the collected bytes are what is returned (as an owned string) whenever output was started."""
@@ -968,10 +1263,13 @@ def check_tail(ctx, f, E, name):
     if not E.accs or len(E.inb) != 1:
         ctx.fail('E4.tail', name, loc(B.root), 'unexpected function shape (no accumulator / working copy of the input)'); return
     where = post_loop(B, E.loop) or B.root
-    r1 = after_loop(f, E, {b: ('ctor', 'Some', (('param', 'out'),)) if ty == T_LAZY else ('param', 'out') for b, ty in E.accs})
-    ok = bool(r1) and all(v[0] == 'ctor' and v[1] == 'Cow::Owned' and absx.leaves(v, lambda x: x == ('param', 'out')) and 'from_utf8' in str(v) for v in r1)
-    ctx.add('E4.owned-when-escaped', name, loc(where), ok, 'with escapes the function does not return the collected output')
+    r1 = after_loop(f, E, {b: ('ctor', 'Some', (('param', 'out'),)) if ty in T_LAZY else ('param', 'out') for b, ty in E.accs})
+    # the collected octets as a string: a String is returned as it is (it holds these very octets); a Vec<u8> goes through
+    # String::from_utf8, which keeps the octets (or fails)
+    ok = bool(r1) and all(v[0] == 'ctor' and v[1] == 'Cow::Owned' and (v[2] == (('param', 'out'),) or absx.leaves(v, lambda x: x == ('param', 'out')) and 'from_utf8' in str(v)) for v in r1)
+    ctx.add('E4.owned-when-escaped', name, loc(where), ok, 'with escapes the function does not return the collected output as an owned string: %s' % (
+        ['the output is written to after the loop (%s)' % v[1] if v[0] == 'written-after-loop' else 'returns ' + absx.fmt(v)[:80] for v in r1][:3] or 'no path returns'))
     if E.lazy:
-        r0 = after_loop(f, E, {b: ('ctor', 'None', ()) if ty == T_LAZY else ('param', 'out') for b, ty in E.accs})
+        r0 = after_loop(f, E, {b: ('ctor', 'None', ()) if ty in T_LAZY else ('param', 'out') for b, ty in E.accs})
         ctx.add('E4.unchanged-when-nothing-escaped', name, loc(where), bool(r0) and all(v == INPUT for v in r0),
                 'with nothing to escape the function returns %s instead of its input' % [absx.fmt(x) for x in r0])
